@@ -15,7 +15,7 @@ ASSUMPTIONS = [
 OPTION_SETS = [
     ["--deterministic-id"], ["--deterministic-id", "--object-streams=generate"], ["--deterministic-id", "--linearize"],
     ["--deterministic-id", "--qdf"], ["--deterministic-id", "--object-streams=disable", "--stream-data=uncompress"],
-    ["--static-id", "--linearize", "--object-streams=generate"],
+    ["--static-id", "--static-aes-iv", "--linearize", "--object-streams=generate"],
     ["--static-id", "--static-aes-iv", "--allow-weak-crypto", "--encrypt", "--user-password=u", "--owner-password=o", "--bits=128", "--use-aes=y", "--"],
     ["--static-id", "--static-aes-iv", "--allow-weak-crypto", "--encrypt", "--user-password=u", "--owner-password=o", "--bits=128", "--use-aes=n", "--"],
     ["--static-id", "--static-aes-iv", "--allow-weak-crypto", "--encrypt", "--user-password=u", "--owner-password=o", "--bits=40", "--", "--linearize"],
@@ -43,6 +43,7 @@ def run(chk):
         inputs.append(p)
     cf = [f for f in filecheck.corpus_files() if os.path.getsize(f) <= 80000]
     inputs += rng.sample(cf, 8 if quick else 150)
+    encrypted_inputs = set(i for i in inputs if common.run_qpdf(["--is-encrypted", i])[0] == 0)
     have_setarch = shutil.which("setarch") is not None and subprocess.run(["setarch", "-R", "true"], capture_output=True).returncode == 0
     locales = subprocess.run(["locale", "-a"], capture_output=True).stdout.decode().split()
     alt_locale = next((l for l in locales if l.lower().startswith(("de_de", "fr_fr", "tr_tr", "en_us"))), None)
@@ -68,6 +69,8 @@ def run(chk):
 
     def one(job):
         inp, opts, jid = job
+        if "--deterministic-id" in opts and inp in encrypted_inputs:
+            return job, 2, None, []
         base = os.path.join(wd, "b%d.pdf" % jid)
         rc0, so, se = common.run_qpdf(opts + [inp, base])
         if rc0 not in (0, 3):
